@@ -57,7 +57,22 @@ _STATUS = "[0-9][0-9][0-9]"       # RFC 9112 4: 3DIGIT
 _REASON = "(?:\\x09|\\x20|%s|%s)+" % (_VCHAR, _OBS)   # 1*( HTAB / SP / VCHAR / obs-text )
 _TOKEN = "%s+" % _TCHAR
 _TARGET = "%s+" % _FVCHAR         # Tornado relaxation: anything but controls and whitespace, at least one
+# RFC 3986: unreserved = ALPHA / DIGIT / "-" / "." / "_" / "~" ; sub-delims = "!" / "$" / "&" / "'" / "(" / ")" / "*" / "+" / "," / ";" / "="
+_UNRES = "(?:[a-z]|[A-Z]|[0-9]|-|\\.|_|~)"
+_SUBD = "(?:!|\\$|&|'|\\(|\\)|\\*|\\+|,|;|=)"
+_PCT = "%[0-9a-fA-F][0-9a-fA-F]"     # pct-encoded = "%" HEXDIG HEXDIG
+_URIHOST = "(?:\\[|\\]|:|%s|%s|%s)*" % (_UNRES, _SUBD, _PCT)   # Tornado's documented simplification of host: brackets and colons anywhere
+_PORT = "[0-9]*"                    # port = *DIGIT
 REFS = {
+    "uri_unreserved": _UNRES,
+    "uri_sub_delims": _SUBD,
+    "uri_pct_encoded": _PCT,
+    "uri_host": _URIHOST,
+    "uri_port": _PORT,
+    "host": "%s(?::%s)?" % (_URIHOST, _PORT),     # RFC 9110 7.2: Host = uri-host [ ":" port ]
+    "VCHAR": _VCHAR,
+    "obs_text": _OBS,
+    "field_vchar": _FVCHAR,
     "tchar": _TCHAR,
     "token": _TOKEN,
     "field_name": _TOKEN,
@@ -87,6 +102,14 @@ def rule_rx(ck):
         n += 1
         ck.ob("C43.rx", None, ck.repo.cls(HU, "_ABNF"), w is None,
               "L(_ABNF.%s) == L(RFC reference)%s" % (name, "" if w is None else " — differs on %r (%s)" % w), construct="_ABNF.%s" % name, file=HU)
+    # every pattern of the class is governed: a new/renamed rule without a reference fails closed; and, independently of the
+    # references, no wire grammar may admit a code point above 255 (the text is bytes smuggled through latin-1): \\d, \\w, \\s in
+    # a str pattern are Unicode-aware and do.
+    for name, pat in env.items():
+        if name not in REFS:
+            raise AnalysisError("C43.rx: _ABNF.%s has no RFC reference in the checker (new grammar rule?)" % name)
+        n += 1
+        ck.ob("C43.rx", None, ck.repo.cls(HU, "_ABNF"), Rx.from_pattern(pat).excludes_symbols([256]), "_ABNF.%s admits no character above U+00FF (no Unicode-aware \\d/\\w/\\s class in a wire grammar)" % name, construct="_ABNF.%s latin-1 only" % name, file=HU)
     return n
 
 
@@ -444,8 +467,60 @@ def rule_misc(ck):
                 continue
             ok = isinstance(e, ast.Subscript) and q.dotted(e.value) == pu and q.is_const(e.slice, i) or (isinstance(e, ast.Attribute) and q.dotted(e.value) == pu)
             ck.ob("C43.url-concat", uc, e, bool(ok), "component %d (%s) of the URL is carried over unchanged" % (i, "fragment" if i == len(tup.elts) - 1 else "scheme/netloc/path/params"[:]))
-    # the early exit for args None returns the url itself
+    # the query handed to urlencode is the parsed existing query, extended (not replaced) by the arguments
+    enc = [c for c in q.calls(uc.node) if q.call_attr(c) == "urlencode"]
+    ck.floor("C43.url-concat", len(enc), 1, "urlencode calls")
+    for c in enc:
+        qv = q.dotted(c.args[0]) if c.args else None
+        if qv is None:
+            raise AnalysisError("url_concat: urlencode argument is not a variable")
+        binds = [a.value for a in q.walk_body(uc.node) if isinstance(a, ast.Assign) and qv in q.assigned_paths(a)]
+        ck.ob("C43.url-concat", uc, c, bool(binds) and all(isinstance(b, ast.Call) and q.call_attr(b) in ("parse_qsl",) and b.args and pu in q.names_in(b.args[0]) for b in binds), "the new query starts from the pairs parsed out of the existing query")
+        exts = [x for x in q.walk_body(uc.node) if isinstance(x, ast.Call) and isinstance(x.func, ast.Attribute) and q.dotted(x.func.value) == qv]
+        for x in exts:
+            ck.ob("C43.url-concat", uc, x, x.func.attr in ("extend", "append") and args_param(uc) in q.names_in(x), "the arguments are appended after the existing pairs (%s.%s)" % (qv, x.func.attr))
+        ck.floor("C43.url-concat", len(exts), 1, "extensions of the parsed query")
+
+    # _encode_header: a valueless parameter is exactly v is None (0 / '' are values)
+    from ..x_optint import check_truthiness
+    eh = ck.func(HU, "_encode_header")
+    lps = [l for l in q.walk_body(eh.node) if isinstance(l, ast.For) and isinstance(l.target, ast.Tuple) and len(l.target.elts) == 2]
+    ck.floor("C43.encode-header", len(lps), 1, "parameter loops in _encode_header")
+    for l in lps:
+        vname = l.target.elts[1].id
+        check_truthiness(ck, "C43.encode-header", eh, extra=[vname])
+        nones = [c for c in ast.walk(l) if isinstance(c, ast.Compare) and q.dotted(c.left) == vname and isinstance(c.ops[0], (ast.Is, ast.IsNot)) and q.is_const(c.comparators[0], None)]
+        ck.ob("C43.encode-header", eh, l, len(nones) >= 1, "valueless parameters are recognised by 'is None'")
+        fs = [x for x in ast.walk(l) if isinstance(x, ast.JoinedStr)]
+        for f in fs:
+            holes = [q.dotted(v.value) for v in f.values if isinstance(v, ast.FormattedValue)]
+            consts = [v.value for v in f.values if isinstance(v, ast.Constant)]
+            ck.ob("C43.encode-header", eh, f, holes == [l.target.elts[0].id, vname] and consts == ["="], "a valued parameter is rendered as '<name>=<value>'")
+    joins = [c for c in q.calls(eh.node) if q.call_attr(c) == "join" and isinstance(c.func.value, ast.Constant)]
+    for c in joins:
+        ck.ob("C43.encode-header", eh, c, c.func.value.value == "; ", "parameters are separated by '; ' (what _parse_header splits on ';' and strips)")
+
+    # format_timestamp: every broken-down time is interpreted as UTC and rendered as GMT
+    ft = ck.func(HU, "format_timestamp")
+    fd = [c for c in q.calls(ft.node) if q.call_attr(c) == "formatdate"]
+    ck.floor("C43.timestamp", len(fd), 1, "formatdate calls")
+    for c in fd:
+        g = q.kwarg(c, "usegmt")
+        ck.ob("C43.timestamp", ft, c, g is not None and q.is_const(g, True), "HTTP dates are rendered with the literal 'GMT' zone (usegmt=True)")
+        lt = q.kwarg(c, "localtime")
+        ck.ob("C43.timestamp", ft, c, lt is None or q.is_const(lt, False), "HTTP dates are never rendered in local time")
+    conv = [c for c in q.calls(ft.node) if q.dotted(c.func) in ("calendar.timegm", "time.mktime", "time.mktime") or q.call_attr(c) in ("timegm", "mktime", "timestamp")]
+    ck.floor("C43.timestamp", len(conv), 2, "time-tuple conversions")
+    for c in conv:
+        ck.ob("C43.timestamp", ft, c, q.call_attr(c) == "timegm", "time tuples are converted with calendar.timegm (UTC), not mktime/timestamp() (local zone for naive values)")
+        a0 = c.args[0] if c.args else None
+        if isinstance(a0, ast.Call) and q.call_attr(a0) in ("timetuple", "utctimetuple"):
+            ck.ob("C43.timestamp", ft, a0, q.call_attr(a0) == "utctimetuple", "aware datetimes are converted to UTC before formatting (utctimetuple)")
     return 1
+
+
+def args_param(fi):
+    return fi.params()[1]
 
 
 def run(ck):
@@ -455,9 +530,11 @@ def run(ck):
     ck.rule("C43.total", "_parse_header/_parseparam/parse_cookie/_unquote_cookie/_unquote_replace/split_host_and_port cannot raise (frozen table; guards dominate every index/unpack/next/int)")
     ck.rule("C43.ip", "is_valid_ip: empty and NUL rejected first, AI_NUMERICHOST, gaierror/UnicodeError answered False")
     ck.rule("C43.re-unescape", "re_unescape: pattern is backslash + any char incl. newline; whole-string sub; replacement is group 1")
+    ck.rule("C43.encode-header", "_encode_header: valueless = 'is None' (not falsy); 'name=value' joined by '; '")
+    ck.rule("C43.timestamp", "format_timestamp: tuples/datetimes -> calendar.timegm(UTC); formatdate(usegmt=True)")
     ck.rule("C43.url-concat", "url_concat keeps blank-valued pairs and carries scheme/netloc/path/params/fragment over")
     n = rule_rx(ck)
-    ck.floor("C43.rx", n, 11, "_ABNF patterns compared")
+    ck.floor("C43.rx", n, 30, "_ABNF patterns compared")
     rule_start_lines(ck)
     n = rule_total(ck)
     ck.floor("C43.total", n, 15, "governed operations in the total helpers")
@@ -502,6 +579,17 @@ def _meth(frm, to):
 
 
 MUTANTS = [
+    ("_encode_header: valueless parameter decided by truthiness (0 / '' lose their value)", _h("_encode_header", replace_expr(lambda n: isinstance(n, ast.Compare) and _src(n) == "v is None", lambda n: parse_expr("not v"))), "C43.encode-header"),
+    ("_encode_header: parameters joined with ';' + no space is fine, but ',' breaks the round trip", _h("_encode_header", replace_expr(lambda n: isinstance(n, ast.Constant) and n.value == "; ", lambda n: ast.Constant(value=", "))), "C43.encode-header"),
+    ("undo the F24 repair: int(match.group(2)) outside any ValueError handler", _h("split_host_and_port", lambda root: _unwrap_try_int(root)), "C43.total"),
+    ("seeded C43-adv1: [0-9] rewritten as \\d in uri_port", _abnf("uri_port", "re.compile(r'\\d*')"), "C43.rx"),
+    ("uri_pct_encoded with \\w-style hex ([0-9A-Za-z]{2})", _abnf("uri_pct_encoded", "re.compile(r'%[0-9A-Za-z]{2}')"), "C43.rx"),
+    ("uri_host loses the brackets (IPv6 literals rejected)", _abnf("uri_host", "re.compile(rf'(?::|{uri_unreserved.pattern}|{uri_sub_delims.pattern}|{uri_pct_encoded.pattern})*')"), "C43.rx"),
+    ("obs_text uses \\S-like class reaching above U+00FF", _abnf("obs_text", "re.compile(r'[\\x80-\\uffff]')"), "C43.rx"),
+    ("format_timestamp: struct_time converted with time.mktime (local zone)", _h("format_timestamp", replace_expr(lambda n: isinstance(n, ast.Call) and q.dotted(n.func) == "calendar.timegm" and "utctimetuple" not in _src(n), lambda n: ast.Call(func=parse_expr("time.mktime"), args=n.args, keywords=[]))), "C43.timestamp"),
+    ("format_timestamp: aware datetime formatted from its local timetuple()", _h("format_timestamp", replace_expr(lambda n: isinstance(n, ast.Attribute) and n.attr == "utctimetuple", lambda n: ast.Attribute(value=n.value, attr="timetuple", ctx=ast.Load()))), "C43.timestamp"),
+    ("format_timestamp: usegmt dropped ('-0000' instead of 'GMT')", _h("format_timestamp", replace_expr(lambda n: isinstance(n, ast.Call) and q.call_attr(n) == "formatdate", lambda n: ast.Call(func=n.func, args=n.args, keywords=[]))), "C43.timestamp"),
+    ("url_concat: dict arguments replace the existing query", _h("url_concat", replace_stmt(lambda st: isinstance(st, ast.Assign) and "parse_qsl" in _src(st), lambda st: [parse_stmt("parsed_query = []")], limit=1)), "C43.url-concat"),
     ("status_code [0-9]{3} -> [0-9]+", _abnf("status_code", "re.compile(r'[0-9]+')"), ("C43.rx", "C43.start-line", "C43.sint")),
     ("tchar admits ':'", _abnf("tchar", "re.compile(r\"[!#$%&'*+\\-.^_`|~0-9A-Za-z:]\")"), ("C43.rx", "C43.start-line")),
     ("HTTP_version with unescaped dot", _abnf("HTTP_version", "re.compile(r'HTTP/[0-9].[0-9]')"), ("C43.rx", "C43.start-line")),
@@ -549,4 +637,16 @@ def _drop_handler(root, name):
                 if h.type is not None and name in _src(h.type):
                     node.handlers.remove(h)
                     return True
+    return False
+
+
+def _unwrap_try_int(root):
+    for node in ast.walk(root):
+        for fld in ("body", "orelse"):
+            body = getattr(node, fld, None)
+            if isinstance(body, list):
+                for i, st in enumerate(body):
+                    if isinstance(st, ast.Try) and "int(" in _src(st):
+                        body[i:i + 1] = st.body
+                        return True
     return False
